@@ -318,4 +318,43 @@ theorem uniLines_insert_blank (a b : LStr) :
   · have h1 := uniLines_append_nl a b
     simpa using h1
 
+/-! ## how many lines -/
+
+/-- what is left in the accumulator after the last `\n` -/
+def tailAfterNl : LStr → LStr → LStr
+  | cur, [] => cur
+  | cur, c :: r => if c = '\n' then tailAfterNl [] r else tailAfterNl (c :: cur) r
+
+theorem splitKeepGo_length (cur t : LStr) :
+    (splitKeepGo cur t).length = t.count '\n' + (if (tailAfterNl cur t).isEmpty then 0 else 1) := by
+  induction t generalizing cur with
+  | nil => unfold splitKeepGo tailAfterNl; cases cur <;> simp
+  | cons c r ih =>
+    simp only [splitKeepGo, tailAfterNl]
+    by_cases hn : c = '\n'
+    · subst hn; simp only [if_true, List.length_cons, ih, List.count_cons_self]; omega
+    · simp only [hn, if_false, ih]
+      rw [List.count_cons_of_ne (fun e => hn e)]
+
+theorem tailAfterNl_of_ends_nl (cur t : LStr) (h : t.getLast? = some '\n') : tailAfterNl cur t = [] := by
+  induction t generalizing cur with
+  | nil => simp at h
+  | cons c r ih =>
+    simp only [tailAfterNl]
+    cases r with
+    | nil =>
+      simp only [List.getLast?_singleton, Option.some.injEq] at h
+      subst h; simp [tailAfterNl]
+    | cons d r' =>
+      have h' : (d :: r').getLast? = some '\n' := by simpa [List.getLast?_cons_cons] using h
+      by_cases hn : c = '\n'
+      · simp only [hn, if_true]; exact ih [] h'
+      · simp only [hn, if_false]; exact ih _ h'
+
+/-- a text that ends with a line end has exactly as many lines as line ends (after translation) -/
+theorem uniLines_length_of_ends_nl (s : LStr) (h : (translate s).getLast? = some '\n') :
+    (uniLines s).length = (translate s).count '\n' := by
+  unfold uniLines splitKeep
+  rw [splitKeepGo_length, tailAfterNl_of_ends_nl [] _ h]; simp
+
 end Bandit
